@@ -131,6 +131,28 @@ def main():
                 rc = 1
                 print('MISSED:', name)
         sys.exit(rc)
+    if a.cmd == 'table':
+        # markdown table for DESIGN.md section 16
+        print('| seeded change | breaks | what it needs to manifest | caught by (quick tier, own-property check first) |')
+        print('|---|---|---|---|')
+        for name in sorted(os.listdir(os.path.join(VERIF, 'seeded'))):
+            mp = os.path.join(VERIF, 'seeded', name, 'meta.json')
+            if not os.path.exists(mp):
+                continue
+            meta = json.load(open(mp))
+            own = meta['breaks_property']
+            mechs = ''
+            for k, v in sorted(meta.get('checks', {}).items()):
+                if k.startswith(own + '/') and v['exit'] == 1 and v.get('mechanisms'):
+                    mechs = v['mechanisms'].replace('mechanisms: ', '').split(',')[0].strip()
+                    mechs = mechs.rsplit(' x', 1)[0]
+                    break
+            others = [c for c in meta.get('caught_by', []) if c != own]
+            caught = (f'**{own}** `{mechs}`' if meta.get('caught_by_own_property_check') else f'{own}: MISSED') + \
+                     (('; also ' + ', '.join(others)) if others else '')
+            need = (meta.get('needs_to_manifest') or '').replace('|', '/').replace('\n', ' ')
+            print(f'| {name} | {own} | {need} | {caught} |')
+        return
     if a.cmd == 'run':
         name = a.a[0]
         meta = json.load(open(os.path.join(VERIF, 'seeded', name, 'meta.json')))
